@@ -121,7 +121,7 @@ WLocInit == [rev |-> 0, mod |-> 0, oldval |-> "-", old |-> NoIdx, res |-> "none"
 WatchReqSet == [start : WatchStarts, prefix : WatchPrefixes]
 XLocInit == [last |-> 0, res |-> "none", find |-> "none", evs |-> << >>, newest |-> 0, listed |-> FALSE, lrev |-> 0, lsnap |-> << >>]
 RdLocInit == [rev |-> 0, hdr |-> 0, seen |-> 0, fl0 |-> 0, n |-> 0, snapI |-> << >>, snapV |-> << >>]
-CLocInit == [rev |-> 0, todo |-> << >>, sidx |-> [k \in Keys |-> NoIdx], skip |-> 0, dead |-> FALSE]
+CLocInit == [rev |-> 0, todo |-> << >>, sidx |-> [k \in Keys |-> NoIdx], skip |-> 0, dead |-> FALSE, snapI |-> << >>, snapV |-> << >>]
 SubInit  == [reg |-> FALSE, closed |-> FALSE, buf |-> << >>, hand |-> << >>, hasHand |-> FALSE]
 
 Init ==
@@ -647,9 +647,11 @@ RUnch == <<store, floor, dealt, committed, slot, wvars, seqvars, chan, cache, rv
 RangeOf(ix, vs, R) == WorkerRun(Records(ix, vs, KeyLo, KeyHi + 1), R, 0, FALSE, 0, {}).out
 PointOf(vs, k, R) == LET v == IF R = 0 THEN Latest(vs[k]) ELSE NewestLE(vs[k], R) IN
                      IF IsLive(v) THEN <<[k |-> k, rev |-> v.rev, val |-> v.val]>> ELSE << >>
+\* the header of a response never stays behind the data in it (Get: range.go:61-63, List: range.go:165-171)
+HdrOver(h, res) == MaxS({h} \cup {res[i].rev : i \in 1..Len(res)})
 ReadDone(r, refused, res) ==
     /\ reads' = reads \cup {[p |-> r, refused |-> refused, n |-> rdloc[r].n, kind |-> rdreq[r].kind, key |-> rdreq[r].key, req |-> rdreq[r].rev,
-                             rev |-> rdloc[r].rev, hdr |-> rdloc[r].hdr, seen |-> rdloc[r].seen, fl0 |-> rdloc[r].fl0, fl1 |-> floor, res |-> res]}
+                             rev |-> rdloc[r].rev, hdr |-> HdrOver(rdloc[r].hdr, res), cm0 |-> rdloc[r].hdr, seen |-> rdloc[r].seen, fl0 |-> rdloc[r].fl0, fl1 |-> floor, res |-> res]}
     /\ rdpc' = [rdpc EXCEPT ![r] = "idle"]
 
 \* request accepted: header and read revision                    parks at: kv.get (list) / kv.iter (get)
@@ -719,7 +721,10 @@ CStart(c) ==
          LET R == ClampRev(req) IN
          /\ floor' = IF R > floor THEN R ELSE floor
          /\ creq' = [creq EXCEPT ![c] = R]
-         /\ cloc' = [cloc EXCEPT ![c] = [CLocInit EXCEPT !.rev = R]]
+         \* (the engine timestamp is fetched here: an engine whose iterators read the snapshot of that
+         \*  timestamp -- TiKV -- fixes what the worker will see now, the others when the iterator is opened)
+         /\ cloc' = [cloc EXCEPT ![c] = [CLocInit EXCEPT !.rev = R, !.snapI = IF SnapAtTs THEN idx ELSE << >>,
+                                                          !.snapV = IF SnapAtTs THEN ver ELSE << >>]]
          /\ HF(c, "CStart", "start", "", req)
     /\ cpc' = [cpc EXCEPT ![c] = "c_iter"]
     /\ UNCHANGED <<idx, ver, wloc, faults, cn, CUnch>>
@@ -728,8 +733,10 @@ CStart(c) ==
 \* decided by that snapshot (Scanner!WorkerRun)                                  gate: kv.iter
 CIter(c) ==
     /\ cpc[c] = "c_iter"
-    /\ LET run == WorkerRun(Records(idx, ver, KeyLo, KeyHi + 1), cloc[c].rev, 0, TRUE, 0, {}) IN
-       /\ cloc' = [cloc EXCEPT ![c].todo = run.dels, ![c].sidx = idx]
+    /\ LET si == IF SnapAtTs THEN cloc[c].snapI ELSE idx
+           sv == IF SnapAtTs THEN cloc[c].snapV ELSE ver
+           run == WorkerRun(Records(si, sv, KeyLo, KeyHi + 1), cloc[c].rev, 0, TRUE, 0, {}) IN
+       /\ cloc' = [cloc EXCEPT ![c].todo = run.dels, ![c].sidx = si, ![c].snapI = << >>, ![c].snapV = << >>]
        /\ cpc' = [cpc EXCEPT ![c] = IF run.dels = << >> THEN "idle" ELSE "c_del"]
        /\ cn' = [cn EXCEPT ![c] = IF run.dels = << >> THEN @ + 1 ELSE @]
     /\ H(c, "CIter", "kv.iter")
@@ -869,7 +876,9 @@ StaysWritable == \A k \in Keys : Writable(idx[k], ver[k])
 \* a range read that was answered with data at a revision that is still at or above the floor returned
 \* exactly the snapshot of the full history at that revision -- judged against everything written up
 \* to NOW, so a version at or below a readable revision that lands later is caught as well
-ReadJudged(x) == ~x.refused /\ x.rev > 0 /\ x.rev <= x.hdr /\ x.rev >= x.fl1
+ReadJudged(x) == ~x.refused /\ x.rev > 0 /\ x.rev <= x.cm0 /\ x.rev >= x.fl1
+\* C02, last clause, for reads
+HeaderCoversReads == \A x \in reads : \A i \in 1..Len(x.res) : x.hdr >= x.res[i].rev
 ReadIsSnapshotC == \A x \in reads : ReadJudged(x) =>
                       IF x.kind = "list" THEN x.res = RangeRef(hver, Keys, x.rev, KeyLo, KeyHi + 1, 0).kvs
                                          ELSE x.res = PointOf(hver, x.key, x.rev)
